@@ -67,7 +67,7 @@ def ctorCase (id : String) (payload : List Sexp) : List String :=
         | _ => false
       let gs := parseTParams p
       let base := if hin then "Leak" else region t
-      let reg := if base != "Out" && base != "Leak" && gs.any (fun g => !g.isIdent) then "F_tparamNonIdent" else base
+      let reg := base
       both id (ctorModel t hin ++ [("tparams", TParams.typeParamList gs)]) (ctorSpec t ++ [("tparams", TParams.specList gs)]) reg
     | none => err id "bad-tree"
   | _ => err id "bad-ctor-case"
